@@ -18,13 +18,13 @@ import (
 )
 
 type c10Case struct {
-	Own     [4]string `json:"own"`      // the program's own output: print, println, os.Stderr, os.Stdout
-	InLib   bool      `json:"in_lib"`   // crash code lives in a dependency instead of main
-	Extra   string    `json:"extra"`    // extra flags: "" | "literals" | "seed"
-	Runs    []c10Run  `json:"runs"`     // the (kind, context, mode, GOTRACEBACK) points to execute
-	PanicS  string    `json:"panic_s"`  // text used in string panics
-	ExitN   int       `json:"exit_n"`   // code for os.Exit
-	Padding int       `json:"padding"`  // unrelated functions before the crash code (moves positions)
+	Own     [4]string `json:"own"`     // the program's own output: print, println, os.Stderr, os.Stdout
+	InLib   bool      `json:"in_lib"`  // crash code lives in a dependency instead of main
+	Extra   string    `json:"extra"`   // extra flags: "" | "literals" | "seed"
+	Runs    []c10Run  `json:"runs"`    // the (kind, context, mode, GOTRACEBACK) points to execute
+	PanicS  string    `json:"panic_s"` // text used in string panics
+	ExitN   int       `json:"exit_n"`  // code for os.Exit
+	Padding int       `json:"padding"` // unrelated functions before the crash code (moves positions)
 }
 
 type c10Run struct {
